@@ -4,11 +4,12 @@
    Thrift/Idl.v + IdlPinned.v (the Parquet IDL as a table, typed check `conforms`),
    Impl/CThrift.v (cencoding.pyx: write_thrift/write_list/to_bytes with the fixed buffer,
    read_thrift/read_list, dict_eq), Impl/CThriftSpec.v (the value tree an object denotes). *)
-From Coq Require Import NArith ZArith List Bool.
+From Coq Require Import NArith ZArith List Bool String.
 From Pq Require Import Base.Bytes Thrift.Varint Thrift.Compact Thrift.Idl Thrift.IdlPinned
-  Impl.CThrift Impl.CThriftSpec Proofs.CompactProofs Proofs.CThriftProofs Proofs.CThriftRead
+  Impl.CThrift Impl.CThriftSpec Impl.CThriftTyped Proofs.CThriftTypedProofs Proofs.CompactProofs Proofs.CThriftProofs Proofs.CThriftRead
   Proofs.CThriftRoundtrip Proofs.CThriftMain Proofs.CThriftReser.
 Import ListNotations.
+Open Scope list_scope.
 Open Scope N_scope.
 
 (* the specification's reader inverts the specification's writer: every representable value tree,
@@ -26,6 +27,19 @@ Print Assumptions C10_compact_roundtrip.
 Theorem C10_conformance_bytes : forall v, ser v = option_map wr (t_top v).
 Proof. exact ser_spec. Qed.
 Print Assumptions C10_conformance_bytes.
+
+(* IDL conformance of the emitted bytes, from a condition on the PYTHON object: if every value has the shape
+   of its declared type and for every integer field the wire type selected by the enclosing dict's
+   "i32"/"i32list" markers is the declared one (typed_ok; established for the writer's construction sites by
+   gen_callsites_markers_conform and evaluated on every generated structure by the harness), then what
+   to_bytes emits is the specification's encoding of a tree that passes the strict IDL check: declared
+   field ids only, declared wire types, increasing ids, required fields present, unions one arm.  Only
+   leniency: an empty list carries element type 0 (open finding). *)
+Theorem C10_typed_conformance : forall d n v bs,
+  typed_ok pinned d (FStruct n) 0 v = true -> ser v = Some bs ->
+  exists t, bs = wr t /\ conforms pinned lenient (FStruct n) t = true.
+Proof. exact (typed_conformance pinned). Qed.
+Print Assumptions C10_typed_conformance.
 
 (* the round trip of cencoding.pyx (partial: the full statement "for every metadata structure" is false on
    the pinned tree, see the refuted theorems).  For every object in `dom` - every key that carries a
@@ -105,5 +119,7 @@ Example C10_nonvacuous :
   /\ option_map fst (thrift_dec false [24; 1; 107; 21; 14; 22; 1; 25; 37; 2; 4; 0]) = t_top v
   /\ to_bytes 5 (PDict false None [(1%Z, PInt 1); (2%Z, PInt 2); (3%Z, PInt 3)]) = OBytes [22; 2; 22; 4; 22]
   /\ dom 63 v = true
+  /\ typed_ok pinned 5 (FStruct "KeyValue"%string) 0 (PDict false None [(1%Z, PStr [107]); (2%Z, PStr [118])]) = true
+  /\ typed_ok pinned 5 (FStruct "Statistics"%string) 0 (PDict true None [(3%Z, PInt 7)]) = false
   /\ option_map (fun p => obj_eq v (fst p)) (from_buffer [24; 1; 107; 21; 14; 22; 1; 25; 37; 2; 4; 0]) = Some true.
 Proof. vm_compute. repeat split. Qed.
